@@ -28,6 +28,7 @@ EXPLANATION = (
     ' (R4, shared with C02.R6) every path of the receive callbacks reaches the reassembly test and the validator.'
     ' (R5, shared with C05.R4) no timer of an earlier request is armed when a request ends, so the wait for the second fragment lasts the configured timeout.'
     ' (R3 first-fragment) the shortest first fragment the property names (5 bytes RTU, 9 bytes TCP / AA55) of a conforming read answer can only end in PartialResponseException; a handler that stores fragments but never joins one violates R2.'
+    ' (R6, shared with C06.R6) at most one live timeout per protocol object: no handle is overwritten or forgotten while armed.'
 )
 
 
@@ -53,6 +54,14 @@ def check(ctx: Ctx, rep: Report):
         r2(ctx, rep, ci)
         r3_handler(ctx, rep, ci)
     r3_raise_sites(ctx, rep, fams)
+    rep.rule("C07.R6", "no timeout handle is orphaned: a stale timer of an earlier transmission would cancel the request while its second fragment is awaited (shared with C06.R6)", 6)
+    from .c06 import r6 as _c06_r6
+    from ..core import Report as _R6
+    _s6 = _R6("C06", rep.tier)
+    for _ci in proto_classes(ctx):
+        _c06_r6(ctx, _s6, _ci)
+    for o in _s6.obligations:
+        rep.obligations.append(type(o)("C07.R6", o.key, o.where, o.what, o.status, o.detail))
 
 
 def r1(ctx, rep, ci):
